@@ -576,3 +576,42 @@ pub fn supervise(a: &HashMap<String, String>) -> i32 {
     }
     0
 }
+
+/// `worker-hashes`: run indices 0..runs over `jobs` worker processes and print "idx hash" lines (determinism self-test).
+pub fn worker_hashes(a: &HashMap<String, String>) -> i32 {
+    let prop = a.get("prop").expect("--prop").clone();
+    let seed: u64 = a.get("seed").and_then(|s| s.parse().ok()).unwrap_or(1);
+    let runs: u64 = a.get("runs").and_then(|s| s.parse().ok()).unwrap_or(100);
+    let jobs: usize = a.get("jobs").and_then(|s| s.parse().ok()).unwrap_or(4);
+    let tier_s = a.get("tier").cloned().unwrap_or_else(|| "quick".into());
+    let me = std::env::current_exe().unwrap().to_string_lossy().to_string();
+    let tmp = format!("/verif/target/tmp/hashes-{}", std::process::id());
+    let _ = std::fs::create_dir_all(&tmp);
+    let (tx, rx) = mpsc::channel::<Msg>();
+    let mut kids = Vec::new();
+    for w in 0..jobs {
+        let spec = WorkerSpec { bin: me.clone(), label: "rel".into(), args: vec!["--prop".into(), prop.clone(), "--tier".into(), tier_s.clone(), "--seed".into(), seed.to_string(), "--start".into(), w.to_string(), "--stride".into(), jobs.to_string(), "--count".into(), runs.to_string()] };
+        kids.push(spawn_worker(w, &spec, tx.clone(), &format!("{}/w{}.err", tmp, w)));
+    }
+    drop(tx);
+    let mut open = kids.len();
+    let mut out: BTreeMap<u64, String> = BTreeMap::new();
+    while open > 0 {
+        match rx.recv_timeout(Duration::from_secs(600)) {
+            Ok(Msg::Run(_, l)) => {
+                out.insert(l.idx, format!("{:x}-{:x}-{:x}", l.case_hash, l.trace_hash, l.log_hash));
+            }
+            Ok(Msg::Exit(..)) => open -= 1,
+            Ok(_) => {}
+            Err(_) => return 2,
+        }
+    }
+    for mut k in kids {
+        let _ = k.wait();
+    }
+    let _ = std::fs::remove_dir_all(&tmp);
+    for (i, h) in out {
+        println!("{} {}", i, h);
+    }
+    0
+}
